@@ -3,6 +3,18 @@
   `val` (the integer a limb vector denotes), `eval` (its residue mod p), the limb invariants
   `Tight ⊂ Pub ⊂ SubOk ⊂ Loose`, the bit-operation ↔ div/mod lemmas and the "checked operation
   succeeds" rewriting lemmas used by every operator proof.
+
+  -- API (the Fe64 refinement library, namespace Cx.Proofs.Fe64):
+  --   Fe64Basic     val, eval, Bnd, Tight (<2^51+2^17), Pub (<2^52+2^18), SubOk (<2^53−75), Loose (<2^54)
+  --   Fe64Arith     add_spec sub_spec neg_spec negate_mut_spec mul_spec mul_small_spec carry128_spec
+  --   Fe64Square    square_spec square_repeatdly_spec square_repeatdly_pos square_and_double_spec
+  --   Fe64Bytes     carry_full_loose carry_full_near carry_final_spec pack_spec to_packed_spec
+  --   Fe64FromBytes from_bytes_spec from_bytes_tight from_bytes_eval
+  --   Fe64Pred      natToLE_* to_bytes_spec is_nonzero_spec is_negative_spec ct_eq_spec eq_spec
+  --                 maybe_swap_with_spec maybe_set_spec ZERO_spec ONE_spec D_spec D2_spec SQRTM1_spec
+  --   Fe64Chain     chain250_spec invert_spec pow25523_spec
+  --   shape: `Loose f → Loose g → ∃ h, op f g = some h ∧ Tight h ∧ eval h = Field25519.op (eval f) (eval g)`
+  --   proof hint: chain monadic steps with `rw [e, some_bind]`, never `simp [some_bind]` (kernel blow-up).
 -/
 import CxVerif.Impl.Fe64
 import CxVerif.Spec.Field25519
